@@ -118,6 +118,18 @@ struct QueueAdapter : Adapter {
     if (drain && !pending) for (auto& p : pushed) if (got[p.first] != p.second) { why = "value " + p.first + " was accepted but never returned (lost)"; return false; }
     // ownership census (C07): after the queue is destroyed nothing is alive, nothing was destroyed twice (double frees are caught by xvrt)
     if (fin.size() > 1 && fin[1] != "census") { why = "ownership census after destruction: " + fin[1] + " (value:live-count; >0 leaked, <0 destroyed twice)"; return false; }
+    if (g_hb_order) {
+      // weak-memory mode (C03): the guarantees are conservation (above), ownership and DELIVERY ORDER w.r.t. happens-before;
+      // 'empty' / 'full' / weak-failure answers may be based on stale but legal reads and are not constrained here.
+      // order: if push(a) happens-before push(b) then pop(b) must not happen-before pop(a) - up to the k-1 overtaking of a k-FIFO
+      std::map<std::string, const OpRec*> pushof, popof;
+      for (auto& o : h) { if ((o.name == "push" || o.name == "pushw") && o.res == "ok") pushof[std::to_string(o.args[0])] = &o; if ((o.name == "pop" || o.name == "tpop" || o.name == "popw") && o.done && o.res != "empty" && o.res != "wfail") popof[o.res] = &o; }
+      if (spec.k <= 1) for (auto& a : pushof) for (auto& b : pushof) {
+        if (a.first == b.first || !popof.count(a.first) || !popof.count(b.first)) continue;
+        if (op_precedes(*a.second, *b.second) && op_precedes(*popof[b.first], *popof[a.first])) { why = "delivery order: push " + a.first + " happens-before push " + b.first + " but pop " + b.first + " happens-before pop " + a.first; return false; }
+      }
+      return true;
+    }
     std::vector<OpRec> h2 = h;
     if (drain) { long t = 1000000; for (auto& w : drained) { OpRec r; r.tid = 0; r.name = "pop"; r.res = w; r.inv = t++; r.ret = t++; r.done = true; h2.push_back(r); } }
     QSpec sp = spec;
